@@ -132,7 +132,7 @@ def finding_matches(f, prop, harness, desc, func):
     return True
 
 
-def _watchdog(stop, limit_kb, ov):
+def _watchdog(stop, limit_kb, ov, killed=None):
     """Kill any cbmc process of this run whose resident set exceeds the limit (`ulimit -v` cannot be used: it
     also applies to the Kani driver, which aborts when it cannot allocate).  A killed harness shows up as
     'no checks reported' = inconclusive."""
@@ -150,6 +150,8 @@ def _watchdog(stop, limit_kb, ov):
                 try:
                     if int(parts[1]) > limit_kb:
                         os.kill(int(parts[0]), signal.SIGKILL)
+                        if killed is not None:
+                            killed.append(int(parts[0]))
                 except Exception:
                     pass
 
@@ -380,8 +382,9 @@ def replay(ov, prop, item, extra, timeout=900, native=True):
         penv = dict(ENV, VERIF_CBMC_FILTER="") if os.environ.get("VERIF_PLAYBACK_UNFILTERED") else dict(ENV, VERIF_CBMC_FILTER_MODE="playback")
         import threading
         stop = threading.Event()
+        wd_killed = []
         # the trace-producing CBMC run of a clean_up harness on a broken tree reached 31 GB: same RSS guard as the main run
-        threading.Thread(target=_watchdog, args=(stop, 24 * 1024 * 1024, ov), daemon=True).start()
+        threading.Thread(target=_watchdog, args=(stop, 24 * 1024 * 1024, ov, wd_killed), daemon=True).start()
         try:
             _rc, gen_out = run_group(cmd, ov, penv, timeout if native else min(timeout, 300))
         finally:
@@ -394,7 +397,14 @@ def replay(ov, prop, item, extra, timeout=900, native=True):
                                   "// solver counterexample exists (cover SATISFIED); extracting its values (Kani concrete playback, an\n"
                                   "// unfiltered CBMC run with the full trace) timed out; no native replay: CBMC-only environment\n")
             return True, path, "solver counterexample (values not extracted: concrete-playback run timed out; CBMC-only environment)"
-        return None, path, "playback generation timed out"
+        # The solver's verdict stands (the obligation's cover came back SATISFIED on the real code); what did not
+        # finish is the second, trace-producing CBMC run that extracts the concrete input values for a native test.
+        # This is reported as a violation "without native replay (budget)" -- distinct from a replay that ran and did
+        # not reproduce, which stays unconfirmed (exit 2).
+        open(path, "w").write(f"// Replay for {item['property']} / {h}\n// failing obligation: {item['label']}\n"
+                              "// solver counterexample exists (cover SATISFIED in the main run); the trace-producing run that extracts its\n"
+                              f"// values for a native test exceeded its time budget ({timeout} s)\n")
+        return True, path, f"solver counterexample; native replay not produced: value extraction exceeded {timeout} s"
     blocks = re.findall(r"#\[test\]\s*\nfn kani_concrete_playback_\w+\(\) \{.*?\n\}\n", gen_out, re.S)
     seen_names, uniq_blocks = set(), []
     for b in blocks:
@@ -407,6 +417,9 @@ def replay(ov, prop, item, extra, timeout=900, native=True):
         open(path, "w").write("// no concrete playback test was generated\n// " + item["label"] + "\n")
         if not native:
             return True, path, "solver counterexample (values not extracted; CBMC-only environment)"
+        if wd_killed:
+            open(path, "a").write("// the trace-producing CBMC run was stopped by the memory guard (24 GB): solver counterexample without native replay\n")
+            return True, path, "solver counterexample; native replay not produced: value extraction exceeded the 24 GB memory guard"
         return None, path, "no playback test generated"
     body = "\n".join(blocks).replace(f"concrete_vals, {short})", f"concrete_vals, super::{rel})")
     with open(path, "w") as fh:
